@@ -52,15 +52,21 @@ fn case_strategy(tier: Tier) -> BoxedStrategy<ChaosCase> {
         ],
         rate(),
         rate(),
-        prop_oneof![Just(0u64), 0u64..=30],
-        prop_oneof![Just(0u64), 0u64..=30],
+        // whole milliseconds; now and then bounds of a second and more
+        prop_oneof![18 => Just(0u64), 36 => 0u64..=30, 1 => 1000u64..=2500, 1 => Just(1000u64)],
+        prop_oneof![18 => Just(0u64), 36 => 0u64..=30, 1 => 1000u64..=2500, 1 => Just(2000u64)],
         prop::collection::vec(
             (prop_oneof![2 => Just(0u8), 1 => 1u8..=5], prop_oneof![2 => Just(0u8), 1 => 0u8..=8], prop::bool::weighted(0.8)),
             1..=max_reqs,
         ),
         (prop_oneof![1 => Just(0u64), 1 => Just(u64::MAX), 2 => any::<u64>()], any::<bool>()),
     )
-        .prop_map(|(seed, error_rate, latency_rate, min_ms, max_ms, requests, (clone_mask, settings_first))| ChaosCase {
+        .prop_map(|(seed, error_rate, latency_rate, min_ms, max_ms, mut requests, (clone_mask, settings_first))| {
+            if min_ms.max(max_ms) >= 1000 {
+                // seconds of injected latency: keep the history short
+                requests.truncate(4);
+            }
+            ChaosCase {
             seed,
             error_rate,
             latency_rate,
@@ -69,6 +75,7 @@ fn case_strategy(tier: Tier) -> BoxedStrategy<ChaosCase> {
             requests,
             clone_mask,
             settings_first,
+            }
         })
         .boxed()
 }
@@ -150,7 +157,7 @@ async fn trace(case: &ChaosCase, which: u8) -> (Vec<Obs>, Vec<String>) {
         at[i] = acc;
     }
     let t0 = sim::now();
-    let horizon = acc + 80;
+    let horizon = acc + 80 + case.min_ms.max(case.max_ms);
     let mut task = vec![None; n];
     for t in 0..=horizon {
         if t > 0 {
